@@ -24,11 +24,11 @@ def _esc_unit(name, entry, repo_file, fns, cap, props=("C04", "C08"), kind="proo
 
 # 1. one character, FULL domain (256 bytes x flags): proofs
 _UNUM = ["--unwindset", "sink_unum.0:4,sink_unum.1:4"]   # digits of a 7-bit value: 3 decimal / 2 hex (unwinding assertions prove the bound); each digit is a 64-bit division
-_esc_unit("esc_char_html", "h_char_html", "html.c", ["mmd_print_char_html"], 16, assumptions=[_RND], flags=_UNUM)
-_esc_unit("esc_char_latex", "h_char_latex", "latex.c", ["mmd_print_char_latex"], 24, props=("C04",))
-_esc_unit("esc_char_odf", "h_char_odf", "opendocument-content.c", ["mmd_print_char_opendocument"], 24)
-_esc_unit("esc_char_opml", "h_char_opml", "opml.c", ["mmd_print_source_opml"], 16)
-_esc_unit("esc_char_itmz", "h_char_itmz", "itmz.c", ["mmd_print_source_itmz"], 16)
+_esc_unit("esc_char_html", "h_char_html", "html.c", ["mmd_print_char_html"], 16, props=("C04", "C08", "C16"), assumptions=[_RND], flags=_UNUM)
+_esc_unit("esc_char_latex", "h_char_latex", "latex.c", ["mmd_print_char_latex"], 24, props=("C04", "C16"))
+_esc_unit("esc_char_odf", "h_char_odf", "opendocument-content.c", ["mmd_print_char_opendocument"], 24, props=("C04", "C08", "C16"))
+_esc_unit("esc_char_opml", "h_char_opml", "opml.c", ["mmd_print_source_opml"], 16, props=("C04", "C08", "C16"))
+_esc_unit("esc_char_itmz", "h_char_itmz", "itmz.c", ["mmd_print_source_itmz"], 16, props=("C04", "C08", "C16"))
 
 # 2c. whole strings end to end through the real escaper and the sink, BOUNDED (<= 2 / <= 3 symbolic bytes, full byte
 #     domain).  Thorough tier only (3-11 min each): the quick tier decides strings by 2a/2b (any length) + the per-character proofs.
